@@ -285,7 +285,9 @@ Fixpoint find_def (n : N) (s : fstmt) {struct s} : option (list N * list fstmt) 
 Fixpoint defs_of (body : list fstmt) (n : N) : option (list N * list fstmt) :=
   match body with [] => None | x :: u => match find_def n x with Some d => Some d | None => defs_of u n end end.
 
-(* the names a function body assigns: local to the function, together with its parameters *)
+(* the names a function body assigns: local to the function, together with its parameters.  For the try/except the rewriter puts
+   around a body the names are read off the pristine copy in the handler: the instrumented copy assigns no other name
+   (proofs/FragFunProofs.v, `assigned_fis`), so this is the set Python's compiler computes for the whole definition *)
 Fixpoint assigned (s : fstmt) {struct s} : list N :=
   let al := fix al (u : list fstmt) : list N := match u with [] => [] | x :: u' => assigned x ++ al u' end in
   match s with
@@ -295,7 +297,7 @@ Fixpoint assigned (s : fstmt) {struct s} : list N :=
   | FBefore _ tb own => al tb ++ al own
   | FGuardIf _ _ i p => al i ++ al p
   | FTry b fin => al b ++ al fin
-  | FNameTry b p => al b ++ al p
+  | FNameTry b p => al p
   | _ => []
   end.
 Definition assigned_l (u : list fstmt) : list N := flat_map assigned u.
@@ -437,10 +439,10 @@ Fixpoint fexec_s (sc : scope) (glob : env) (s : fstmt) (r : env) (saved : val) (
   | FNameTry b _ => exec_l b r saved pre          (* the handler re-raises: see the modelling assumption in the header *)
   end.
 
-Fixpoint fexec_l (sc : scope) (glob : env) (u : list fstmt) (r : env) (saved : val) (pre : list entry) {struct u} : fres :=
+Definition fexec_l (sc : scope) (glob : env) := fix exec_l (u : list fstmt) (r : env) (saved : val) (pre : list entry) {struct u} : fres :=
   match u with
   | [] => {| f_exc := None; f_env := r; f_saved := saved; f_log := [] |}
-  | x :: u' => fseq (fexec_s sc glob x r saved pre) (fexec_l sc glob u') pre
+  | x :: u' => fseq (fexec_s sc glob x r saved pre) (exec_l u') pre
   end.
 End WithCall.
 
